@@ -79,14 +79,44 @@ def _session(rng, prog, per, ending):
     if pcut == 0.0:
         stats['all_on_one_line'] = 1
     script, want = [], []
-    # optional: some other program first, then `clear`
-    if rng.random() < 0.2:
-        junk = [(0, 1, 2, None), (0, 1, 65, None), (1, 1, 1, None), (0, 1, 1, 2)]
-        script.append(' '.join(render_cmd(c) for c in junk))
-        want.append([('out', 'A')])
-        script.append(rng.choice(['clear', ' clear ', 'clear']))
-        want.append([])
-        stats['clear'] = 1
+    # optional: some other program first (leaving stacks, labels and a last jump source behind), then `clear`
+    if rng.random() < 0.3:
+        junk = None
+        for _ in range(6):
+            k = rng.random()
+            if k < 0.25:
+                cand = [(0, 1, 2, None), (0, 1, 65, None), (1, 1, 1, None), (0, 1, 1, 2)]
+            elif k < 0.5:
+                # label at 1, jump taken from 2 (last jump source = 2), falls through the second time
+                cand = [(0, 1, 1, None), (1, 1, 3, 7), (1, 1, 3, ('?', 7, None)), (0, 1, 72, None), (1, 1, 1, None)]
+                cand = [(0, 1, 5, None)] * rng.randint(0, 2) + cand
+            elif k < 0.75:
+                cand = gen.tmpl_countdown(rng, iters=rng.choice([2, 3]))
+            else:
+                cand = gen.tmpl_heart_return(rng)
+            try:
+                jm, jper, jend = whole_run_by_command(cand, Limits(steps=500))
+            except NotAdmitted:
+                continue
+            if jend[0] != 'end' or jm.st['stdin_reads'] or (BAD_OUT & set(''.join(o + e for o, e in jper))):
+                continue
+            junk = (cand, jper, jm)
+            break
+        if junk is not None:
+            cand, jper, jm = junk
+            for c, (o, e) in zip(cand, jper):
+                script.append(render_cmd(c))
+                ev = []
+                if o:
+                    ev.append(('out', o))
+                if e:
+                    ev.append(('err', e))
+                want.append(ev)
+            script.append(rng.choice(['clear', ' clear ', 'clear']))
+            want.append([])
+            stats['clear'] = 1
+            if jm.latest is not None:
+                stats['clear_after_a_jump'] = 1
     line, lo, le = [], [], []
     nexec = len(per)          # commands that (at least partly) executed
     k = 0
@@ -136,7 +166,14 @@ def _case(i):
     tier, seed, rundir = _RUN['tier'], _RUN['seed'], _RUN['dir']
     rng = C.rng_for(seed, PID, tier, i)
     res = {'i': i, 'items': [], 'hist': {}, 'status': 'ok'}
-    name, prog = gen.gen_case(rng, allow_input=False, weights={'random': 0.3, 'template': 0.3, 'mutant': 0.4})
+    if rng.random() < 0.15:
+        # a ♡ evaluated before any jump of this program: must do nothing in a fresh (or cleared) state
+        name = 'early_heart'
+        prog = [(0, 1, rng.randint(0, 3), None) for _ in range(rng.randint(1, 4))]
+        prog += [(rng.choice([0, 1]), 1, rng.choice([1, 3]), rng.choice([13, ('?', 13, None), ('?', None, 13), ('!', 13, 13)]))]
+        prog += gen.print_chars([rng.choice([65, 66, 67])], 3, rng.choice([1, 2])) + gen.gen_random(rng, False, 1, 4)
+    else:
+        name, prog = gen.gen_case(rng, allow_input=False, weights={'random': 0.3, 'template': 0.3, 'mutant': 0.4})
     lim = Limits(steps=2500)
     try:
         m, per, ending = whole_run_by_command(prog, lim)
@@ -184,6 +221,8 @@ def _case(i):
         return res
     script, want, rc, stats = _session(rng, prog, per, ending)
     C.add_hist(res['hist'], stats)
+    if stats.get('clear_after_a_jump') and name == 'early_heart':
+        res['hist']['early_heart_after_clear_after_jump'] = 1
     if m.st['jumps'] and stats['lines_with_code'] > 1:
         res['hist']['jump_across_lines'] = 1
     p = C.run_proc([C.HYEONG, '--color', 'never'], ('\n'.join(script) + '\n').encode('utf-8'), cpu=20)
@@ -268,5 +307,5 @@ def main(tier, seed):
     assumptions = ['prompt/help/banner wording is not compared', 'the line on which an encoding error occurs is judged only by exit status 1 + diagnostic',
                    'binary sessions restrict the output alphabet; unrestricted outputs are covered by the library path']
     minimum = {'cases': (ev, 500), 'binary sessions': (hist.get('sessions', 0), 300), 'jump across lines': (hist.get('jump_across_lines', 0), 30),
-               'clear': (hist.get('clear', 0), 30), 'library commands compared': (hist.get('library_commands_compared', 0), 5000)}
+               'clear': (hist.get('clear', 0), 30), 'clear after a jump': (hist.get('clear_after_a_jump', 0), 15), 'library commands compared': (hist.get('library_commands_compared', 0), 5000)}
     return rep.finish(cov, assumptions, t0, minimum)
